@@ -1889,6 +1889,17 @@ class AbelianArray(BlockBase):
         zeros_kwargs = {}
         if hasattr(_ex_array, "dtype"):
             zeros_kwargs["dtype"] = _ex_array.dtype
+            dtype_names = {
+                ar.get_dtype_name(x) for x in self.blocks.values()
+            }
+            if len(dtype_names) > 1:
+                # blocks of mixed dtype (e.g. from real + complex): the
+                # fused blocks must hold the promoted type
+                import numpy as np
+
+                zeros_kwargs["dtype"] = ar.to_backend_dtype(
+                    np.result_type(*dtype_names).name, like=backend
+                )
         if hasattr(_ex_array, "device"):
             zeros_kwargs["device"] = _ex_array.device
 
